@@ -237,6 +237,8 @@ def gen_program(rng, length):
             nvec = rng.random() < 0.3
             kk = sa[-1] if rng.random() < 0.9 else sa[-1] + 1
             cols = 1 if nvec else rng.randint(1, 3)
+            if kk == 0:
+                continue
             N = [qvec(rng, cols) for _ in range(kk)]
             Nn = np.array([[float(v) for v in r] for r in N])
             if nvec:
@@ -269,14 +271,14 @@ def gen_program(rng, length):
         elif op == 'index':
             if len(sa) != 1:
                 continue
-            i = rng.randrange(sa[0]) if rng.random() < 0.9 else sa[0]
+            i = rng.randrange(sa[0]) if (sa[0] > 0 and rng.random() < 0.9) else sa[0]
             emit('(IIndex %d %d)' % (a, i), ['index', a, i], lambda: A[i], lambda: NA[i])
         elif op == 'slice':
             if len(sa) != 1:
                 continue
             lo, hi = sorted([rng.randint(0, sa[0] + 1), rng.randint(0, sa[0] + 1)])
-            if lo == hi:
-                continue
+            if lo == hi or lo >= sa[0]:
+                continue        # empty arrays are outside the modelled domain (see DESIGN.md section 12)
             emit('(ISlice %d %d %d)' % (a, lo, hi), ['slice', a, lo, hi], lambda: A[lo:hi], lambda: NA[lo:hi])
         elif op in ('tile', 'repeat'):
             if len(sa) != 1:
